@@ -239,6 +239,14 @@ static int streamDispatch(MPT_INTERFACE(input) *in, MPT_TYPE(event_handler) cmd,
 	
 	ret = mpt_queue_recv(&srm->data._rd);
 	
+	/* decoder needs work space first: next call enlarges buffered queue */
+	if (ret == MPT_ERROR(MissingBuffer)) {
+		int flags = mpt_stream_flags(&srm->data._info);
+		if ((flags & MPT_STREAMFLAG(ReadBuf))
+		    && !(flags & MPT_STREAMFLAG(ReadMap))) {
+			return MPT_EVENTFLAG(Retry);
+		}
+	}
 	return (ret > 0) ? MPT_EVENTFLAG(Retry) : MPT_EVENTFLAG(None);
 }
 
